@@ -54,7 +54,7 @@ def build(rng, tier):
             t = gen_target(rng, tree)
             hs = rng.choice([[], [], [('Range', 'bytes=0-')], [('Range', 'bytes=0-5,7-9')], [('Range', 'bytes=-5')]])
             m = rng.choice(['GET', 'GET', 'GET', 'HEAD', 'OPTIONS', 'POST'])
-            cases.append(K.mk(tree, m, t, hs, entry=rng.choice(['proc', 'preq']), kind='traversal'))
+            cases.append(K.mk(tree, m, t, hs, entry=rng.choice(['proc', 'preq', 'proc', 'preq', 'aexec', 'aexecl']), kind='traversal'))
         # existing directories followed by doubled/tripled slashes and one '..' more than they are deep
         # (a guard that counts depth and is fooled by empty segments)
         for d in ('sub', 'sub/deep', 'dir.with.dots', 'emptydir', 'v1.2'):
@@ -69,8 +69,14 @@ def build(rng, tier):
         for t in ['/../secret.txt', '/sub/../../secret.txt', '/..', '/../', '/../index.html', '/../sib0/secret.html', '/..%2fsecret.txt', '/%2e%2e/secret.txt',
                   '/..%2Fsecret.txt', '/..%2F..%2Fsecret.txt', '/sub%2F..%2F..%2Fsecret.txt', '/..%2Fsecret', '/..%2Fsib0', '/..%2Fsib0%2Fsecret.html', '/%2E%2E%2Fsecret.txt',
                   '/..%5Csecret.txt', '/..%5csecret.txt', '/%2E%2E/secret.txt', '/.%2E/secret.txt', '/%2e./secret.txt']:
-            for entry in ('proc', 'preq'):
+            for entry in ('proc', 'preq', 'aexec', 'aexecl'):
                 cases.append(K.mk(tree, 'GET', t, entry=entry, kind='corpus'))
+        # the application handler called directly (no origin-form gate in front of it): targets WITHOUT a leading slash whose first
+        # segments climb, with a file of the same relative name inside the root (so that a guard looking at another spelling passes)
+        for inside in [n.decode('utf-8', 'surrogateescape') for n in tree.names[:4]] + ['secret.txt', 'index.html', 'sib0/secret.html']:
+            for pre in ('../', '../../', '..//', './../', 'x/../../', '..%2F', '%2e%2e/', '..\\', '..?/../', '..#/../'):
+                for entry in ('aexec', 'aexecl', 'proc'):
+                    cases.append(K.mk(tree, 'GET', pre + inside, rng.choice([[], [('Range', 'bytes=0-')]]), entry=entry, kind='no-leading-slash'))
         batches.append((tree, cases))
     return batches
 
@@ -94,7 +100,10 @@ def judge(res, results):
                 res.fail('outside-file-served', c.line[:300], emitted[:80].hex(), None,
                          f'C01: target {c.target!r} ({c.entry}) returned the content of {p!r}, which lies outside the served directory {c.tree.cwd!r}')
                 break
-        if cl:
+        # the status clause is the SERVER's (a target without a leading slash never reaches the handler there: 400); called directly,
+        # the handler glues such a target to the host name of the URL it builds and looks the rest up INSIDE the root - only the
+        # leak clause above applies to that entry
+        if cl and not c.entry.startswith('aexec'):
             resp, why = K.parse_resp(r['writes'][0] if r['writes'] else b'')
             if resp is not None:
                 res.count(f'climbing status {resp["status"]}')
@@ -110,6 +119,6 @@ def run(res, tier, seed):
     res.rule = ('trees with the root nested 0..4 levels deep and a uniquely marked secret at every ancestor level and in sibling directories; targets '
                 'from the segment grammar {.., ., empty, names, %2e%2e, ..%2f, ..%2F, %5C, ...., overlong/fullwidth dots, NUL} with repeated/trailing slashes, one in five with random characters percent-encoded in upper or lower hex, '
                 'query/fragment containing .., no leading slash, authority-like prefixes, backslashes; x Range in {none, 0-, multi, suffix} x both '
-                'entry points x GET/HEAD/OPTIONS/POST; distinct = (entry, request)')
+                'entry points, and the application handler called directly (App::execute / App::handle_request, no origin-form gate) x GET/HEAD/OPTIONS/POST; distinct = (entry, request)')
     for c, r, il, ml in results[:3]:
         res.sample({'entry': c.entry, 'target': c.target, 'status_line': r['recv'][:30].decode('latin1')})
